@@ -38,6 +38,7 @@ Gen<Case> makeGraphGen(const Cfg &cfg) {
     int bigPct = (int)cfgInt(cfg, "big_pct", 0);       // percentage of cases with 66..100 vertices and a vertex of degree > 64
     int wrapPermille = (int)cfgInt(cfg, "wrap_permille", 0); // cases that repeat a search after 2^8-1 / 2^16-1 other searches
     int ringPct = (int)cfgInt(cfg, "ring_pct", 0); // percentage of cases with 150..200 vertices each joined to the next 40..60 (thousands of edges)
+    int sets = (int)cfgInt(cfg, "sets", 0); // percentage of `w` entries (value set through setEdgeWeight / setEdgeMultiplicity / setEdgeLabel) among the edge ops
     bool fresh = cfgInt(cfg, "fresh", 0) != 0; // every case in a forked child, several classes in a generated order
     int forced = (int)cfgInt(cfg, "forced", 0); // percentage of forced (duplicate-creating) adds // percentage of `r` (removeEdge) entries among the edge ops
     return gen::exec([=]() {
@@ -82,13 +83,15 @@ Gen<Case> makeGraphGen(const Cfg &cfg) {
         // edges: raw endpoints reduced modulo n by the executor; small values dominate so that
         // repeats, reciprocal pairs and self-loops all occur
         int nn = std::max(n, 1);
-        auto eg = gen::map(gen::tuple(uni(0, nn), uni(0, nn), uni(0, xmax), wel({{5, 0}, {1, 1}, {1, 2}}), uni(0, 100)), [removals, forced](const std::tuple<int, int, int, int, int> &t) {
+        auto eg = gen::map(gen::tuple(uni(0, nn), uni(0, nn), uni(0, xmax), wel({{5, 0}, {1, 1}, {1, 2}}), uni(0, 100)), [removals, forced, sets](const std::tuple<int, int, int, int, int> &t) {
             int i = std::get<0>(t), j = std::get<1>(t);
             if (std::get<3>(t) == 1)
                 j = i; // self-loop
             Op o = eOp(i, j, std::get<2>(t));
             if (std::get<4>(t) >= 100 - forced) {
                 o.kind = "f"; // forced duplicate (only the labelled classes act on it)
+            } else if (std::get<4>(t) >= 100 - forced - sets) {
+                o.kind = "w"; // the value of the pair set through the setter, in the orientation given
             } else if (std::get<4>(t) < removals) {
                 // removal history: removeEdge(i, j) in the orientation given
                 o.kind = "r";
